@@ -60,8 +60,18 @@ var shapes = map[string]*shape{
 
 // request-side only: the big string is the LAST argument of the call (echo's
 // tag); response-side only: getBig's string result.
-var reqShapes = []string{"first", "mid", "last", "map", "tag"}
-var respShapes = []string{"first", "mid", "last", "map", "getbig"}
+var reqShapes = []string{"first", "mid", "last", "map", "tag", "headers-alone"}
+var respShapes = []string{"first", "mid", "last", "map", "getbig", "headers-alone"}
+
+// bigHeader is the header that carries the bulk in the "headers-alone" shape:
+// a small message whose frame is large only because of ONE user header (a
+// request header set by the caller, a response header set by the handler).
+const bigHeader = "x-big"
+
+func init() {
+	shapes["headers-alone"] = &shape{"headers-alone", func(bulk, fine int) *mainsvc.Payload { return smallPayload() }}
+}
+
 var pubShapes = []string{"first", "mid", "last", "map"}
 
 func smallPayload() *mainsvc.Payload {
@@ -109,6 +119,9 @@ func behave(c *e2e.Call) *e2e.Outcome {
 		if len(parts) == 4 {
 			bulk, _ := strconv.Atoi(parts[2])
 			fine, _ := strconv.Atoi(parts[3])
+			if parts[1] == "headers-alone" {
+				c.Ctx.AddResponseHeader(bigHeader, text(bulk+fine))
+			}
 			if s := shapes[parts[1]]; s != nil {
 				return &e2e.Outcome{Ret: s.build(bulk, fine)}
 			}
